@@ -87,6 +87,13 @@ class Body:
         return '<Body %s>' % self.path
 
     @property
+    def provided_of(self):
+        """path of the trait when this body is a *provided* method (a default body written in the trait), else None"""
+        if self.defkind == 'AssocFn' and not self.impl_self and not self.impl_trait and '::' in self.path and not self.path.startswith('<'):
+            return self.path.rsplit('::', 1)[0]
+        return None
+
+    @property
     def file(self):
         return self.span['file']
 
